@@ -46,8 +46,11 @@ def _record_job(job):
     if isinstance(steps, tuple) and steps and steps[0] == "driver":
         # reactive stimulus (depends on the observations): built inside the worker
         steps = _AD.random_schedule(rng("driver", steps[1]), cfg, steps[2])
+    stim = job[1]
     try:
-        return record(_AD, cfg, steps)
+        tr = record(_AD, cfg, steps)
+        tr["stim"] = list(stim) if isinstance(stim, tuple) else (stim if isinstance(stim, list) else None)
+        return tr
     except common.Violation as v:
         return {"cfg": cfg, "steps": [], "not_observable": f"violation: {v.what}", "violation": [v.key, v.what]}
     except Exception as e:   # construction/elaboration problems belong to C19
@@ -66,6 +69,7 @@ def _tour_job(job):
         steps = [ad.sim_input(real, json.loads(i), r) for (_, i, _) in walk]
         try:
             tr = record(ad, real, steps)
+            tr["stim"] = steps
         except Exception as e:
             tr = {"cfg": real, "steps": [], "not_observable": f"{type(e).__name__}: {e}"}
         tr["walk_len"] = len(walk)
@@ -80,10 +84,50 @@ def report_failures(run, ad, traces, fails, tag):
         tr = traces[fl["trace"]]
         t = fl["t"]
         ident = json.dumps(tr["cfg"], sort_keys=True)
+        stim = tr.get("stim")
+        if isinstance(stim, list) and stim and stim[0] != "driver":
+            stim = stim[:t]
         run.report(f"{tag}:{fl['err']}:{ident[:300]}",
                    f"{ad.module} trace rejected at step {t}, clause {fl['err']}, cfg {ident[:200]}",
-                   {"cfg": tr["cfg"], "failing_step": t, "clause": fl["err"],
-                    "steps": tr["steps"][max(0, t - 6):t]})
+                   {"kind": "hw-trace", "adapter": adapter_id(ad), "cfg": tr["cfg"], "stim": stim,
+                    "failing_step": t, "clause": fl["err"], "steps": tr["steps"][max(0, t - 6):t]})
+
+
+def adapter_id(ad):
+    return getattr(ad, "replay_id", None) or f"{type(ad).__module__}.{type(ad).__name__}:{ad.module}"
+
+
+def replay(path, adapters):
+    """Re-execute exactly the stimulus of a replay file on the current working tree and re-validate it."""
+    global _AD
+    with open(path) as f:
+        doc = json.load(f)
+    rp = doc["replay"]
+    if rp.get("kind") != "hw-trace" or rp.get("stim") is None:
+        print(f"replay file {path} carries no stimulus ({rp.get('kind')}); finding was: {doc.get('what')}")
+        return common.EXIT_MACHINERY
+    ad = next((a for a in adapters if adapter_id(a) == rp["adapter"]), None)
+    if ad is None:
+        raise common.MachineryError(f"no adapter {rp['adapter']} for {path}")
+    _AD = ad
+    stim = rp["stim"]
+    if stim and stim[0] == "driver":
+        stim = tuple(stim)
+    tr = _record_job((rp["cfg"], stim))
+    if "violation" in tr:
+        print(f"VIOLATION property={doc['property']} replay={path}\n  what: {tr['violation'][1]}")
+        return common.EXIT_VIOLATION
+    if "not_observable" in tr:
+        print(f"not observable on this tree: {tr['not_observable']}")
+        return common.EXIT_MACHINERY
+    fails = tracecheck.validate(ad.module, ad.prefix, [tr])
+    if fails:
+        fl = fails[0]
+        print(f"VIOLATION property={doc['property']} replay={path}\n  what: still rejected at step {fl['t']}, "
+              f"clause {fl['err']} (originally step {rp['failing_step']}, clause {rp['clause']})")
+        return common.EXIT_VIOLATION
+    print(f"replay of {path}: accepted by the specification on this tree ({len(tr['steps'])} steps)")
+    return common.EXIT_OK
 
 
 def check(prop, tier, ads, rule, level="model_checking"):
